@@ -1,6 +1,90 @@
-(* Properties_C06.v — every managed object is finalised exactly once (statements only). *)
+(* Properties_C06.v — every managed object is finalised exactly once (statements only).
+   The machine is `run rem_fix sweep_fix` of Lifecycle.v with the two switches taken from
+   Generated.v, i.e. read off the C text of the working tree: a revert of either half of the D18
+   repair makes these statements ill-typed proofs (broken obligations). *)
 From CelloV Require Import Generated Lifecycle LifecycleProofs.
+From Coq Require Import List.
+Import ListNotations.
 
+(* the fixed shapes of GC.c / Alloc.c / Pointer.c / Thread.c / Cello.h that the model re-states *)
 Theorem lifecycle_source_shape : gc_life_shape = true.
 Proof. exact source_shape_ok. Qed.
 Print Assumptions lifecycle_source_shape.
+
+(* for every history — any interleaving of new/new_root/new_raw, del/del_root/del_raw, ownership
+   links, forced and threshold collections with any slot order and any marks, stop/start, teardown
+   — no destructor runs twice and memory is released exactly as often as the destructor ran *)
+Theorem lifecycle_finalised_at_most_once :
+  forall (h : list ev) (x : nat),
+    let s := run gc_rem_pending_finalises gc_sweep_nulls_first h in
+    fin_count s x <= 1 /\ free_count s x = fin_count s x.
+Proof. exact finalised_at_most_once. Qed.
+Print Assumptions lifecycle_finalised_at_most_once.
+
+(* the nested destructor calls through owning Boxes never exhaust the fuel of the model, and no
+   sweep is left with a non-empty pending list *)
+Theorem lifecycle_fuel_adequate :
+  forall h : list ev,
+    let s := run gc_rem_pending_finalises gc_sweep_nulls_first h in
+    oof s = false /\ pend s = [].
+Proof. exact fuel_adequate. Qed.
+Print Assumptions lifecycle_fuel_adequate.
+
+(* del / del_root with the collector running, and del_raw always, finalise the object exactly
+   once, at once *)
+Theorem lifecycle_explicit_delete_finalises :
+  forall (h : list ev) (k : kind) (o : nat),
+    no_alloc_in_stop_window gc_rem_pending_finalises gc_sweep_nulls_first h = true ->
+    let s := run gc_rem_pending_finalises gc_sweep_nulls_first h in
+    torn s = false -> live s o = true -> kind_of s o = Some k ->
+    (k = KRaw \/ running s = true) ->
+    let s' := run gc_rem_pending_finalises gc_sweep_nulls_first (h ++ [EDel k o]) in
+    fin_count s' o = 1 /\ free_count s' o = 1.
+Proof. exact explicit_delete_finalises. Qed.
+Print Assumptions lifecycle_explicit_delete_finalises.
+
+(* after teardown (thread exit / Cello_Exit) every managed object ever allocated has been
+   finalised exactly once and its memory released exactly once *)
+Theorem lifecycle_teardown_complete :
+  forall (h : list ev) (order : list nat) (x : nat) (b : bool),
+    no_alloc_in_stop_window gc_rem_pending_finalises gc_sweep_nulls_first h = true ->
+    let s := run gc_rem_pending_finalises gc_sweep_nulls_first h in
+    torn s = false -> info s x = Some (KManaged, b) ->
+    let s' := run gc_rem_pending_finalises gc_sweep_nulls_first (h ++ [ETeardown order]) in
+    fin_count s' x = 1 /\ free_count s' x = 1.
+Proof. exact teardown_complete. Qed.
+Print Assumptions lifecycle_teardown_complete.
+
+(* non-vacuity of the hypotheses of the two theorems above *)
+Example lifecycle_hypotheses_inhabited :
+  let s := run true true sample_history in
+  no_alloc_or_del_in_stop_window true true sample_history = true /\
+  no_alloc_in_stop_window true true sample_history = true /\
+  torn s = false /\ bad s = false /\ running s = true /\
+  live s 1 = true /\ kind_of s 1 = Some KManaged /\ info s 6 = Some (KManaged, false) /\
+  live s 3 = true /\ kind_of s 3 = Some KRoot /\ fin_count s 7 = 1 /\ fin_count s 8 = 1.
+Proof. exact sample_history_ok. Qed.
+
+(* D18, pinned code (GC_Rem_Ptr only clears the pending entry): an object owned by a Box swept in
+   the same collection and met first is never finalised, not even at teardown *)
+Theorem lifecycle_d18_refuted_pinned :
+  let s := run false false d18_history in
+  no_alloc_or_del_in_stop_window false false d18_history = true /\ bad s = false /\ torn s = true /\
+  info s 2 = Some (KManaged, false) /\ fin_count s 2 = 0 /\ free_count s 2 = 0.
+Proof. exact LifecycleProofs.lifecycle_d18_refuted_pinned. Qed.
+Print Assumptions lifecycle_d18_refuted_pinned.
+
+(* only half of the repair (the sweep calls the destructor before clearing the entry): a Box that
+   owns itself is finalised twice *)
+Theorem lifecycle_sweep_order_refuted_half_repair :
+  let s := run true false selfbox_history in bad s = false /\ fin_count s 1 = 2 /\ free_count s 1 = 2.
+Proof. exact LifecycleProofs.lifecycle_sweep_order_refuted_half_repair. Qed.
+Print Assumptions lifecycle_sweep_order_refuted_half_repair.
+
+(* F2 (open finding): without the stop-window hypothesis teardown leaves an object behind *)
+Theorem lifecycle_stop_window_refuted :
+  let s := run true true stop_window_history in
+  no_alloc_in_stop_window true true stop_window_history = false /\ bad s = false /\ torn s = true /\
+  info s 1 = Some (KManaged, false) /\ fin_count s 1 = 0.
+Proof. exact LifecycleProofs.lifecycle_stop_window_refuted. Qed.
+Print Assumptions lifecycle_stop_window_refuted.
